@@ -153,6 +153,10 @@ type Spec struct {
 	RtMinPoolExtra uint16 `json:"rt_min_pool_extra"`
 	RtValidatorSet bool   `json:"rt_validator_set"`
 	RtOwnStake     bool   `json:"rt_own_stake"`
+	// VRF: the VRF beacon backend (nodes submit proofs, committee elections need a high-quality alpha: at least
+	// VRFThreshold proofs in the previous epoch); false = the insecure backend.
+	VRF          bool   `json:"vrf"`
+	VRFThreshold uint64 `json:"vrf_threshold"`
 	// RtUpgradeAt: 0 = one deployment (version 0.0.0); n > 0 = a second deployment (version 0.1.0) valid from epoch
 	// base-1+n (so n = 1 is already active at genesis); RtNewestFirst lists the newer deployment first in the descriptor.
 	// NodeRtVer[i][j]: which versions node j of entity i registers for: 1 old, 2 new, 3 both (0 = both).
@@ -217,6 +221,18 @@ func BuildGenesis(spec *Spec) (*World, error) {
 			Backend:            beacon.BackendInsecure,
 			InsecureParameters: &beacon.InsecureParameters{Interval: spec.EpochInterval},
 		},
+	}
+	if spec.VRF {
+		// the production beacon: nodes submit VRF proofs during an epoch, elections of the next epoch draw on them
+		doc.Beacon.Parameters = beacon.ConsensusParameters{
+			Backend: beacon.BackendVRF,
+			VRFParameters: &beacon.VRFParameters{
+				AlphaHighQualityThreshold: spec.VRFThreshold,
+				Interval:                  spec.EpochInterval,
+				ProofSubmissionDelay:      1,
+				GasCosts:                  transaction.Costs{beacon.GasOpVRFProve: transaction.Gas(spec.GasOp)},
+			},
+		}
 	}
 	doc.Registry = registry.Genesis{
 		Parameters: registry.ConsensusParameters{
